@@ -20,6 +20,8 @@ The result is a list of Segment objects - (byte constraints, cursor advances, wr
 which the TAB rules state their obligations for all 256 byte values.  Nothing is executed: conditions are evaluated on
 value sets, and a segment describes every run that takes that path.
 """
+import re
+
 from ..facts import AnalysisBroken, walk, strip_casts, expr_str, const_val, CMP_OPS, ASSIGN_OPS, callee_name
 from ..dataflow import access, node_effects
 
@@ -182,6 +184,7 @@ class Explorer(object):
         self.exvals = {}
         self.tables = {}      # name of a const char array with a literal initialiser -> its bytes (terminator included)
         self.tables2 = {}     # name of a const two-dimensional array of constants -> rows
+        self.table_fields = {}   # name of a const array of records -> {field: column}
         self.const_scalars = {}   # decl id of a const integer object with a constant initialiser -> value
         for g in list(u.globals) + [d for (_f, d) in u.static_locals()]:
             t = u.ty(g['ty'])
@@ -195,8 +198,17 @@ class Explorer(object):
                 elif ini.get('k') == 'initlist' and ini['inits'] and all(
                         strip_casts(r).get('k') == 'initlist' and all(const_val(c) is not None for c in strip_casts(r)['inits'])
                         for r in ini['inits']):
-                    # rows of constants: T[i][j]
+                    # rows of constants: T[i][j], or T[i].field for rows that are records (columns by field position)
                     self.tables2[g['n']] = [[const_val(c) & 255 for c in strip_casts(r)['inits']] for r in ini['inits']]
+                    base = re.sub(r'\[[^\]]*\]', '', t['s'])
+                    base = ' '.join(re.sub(r'\bconst\b|\bstruct\b', ' ', base).split())
+                    rec = u.records.get(base)
+                    if rec is None:
+                        for rr in u.raw['records']:
+                            if rr['name'] == base:
+                                rec = rr
+                    if rec is not None:
+                        self.table_fields[g['n']] = {f['n']: i for i, f in enumerate(rec['fields'])}
                 if tb is not None and t.get('count') is not None:
                     tb = (tb + [0] * t['count'])[:t['count']]       # the terminator of a literal and trailing zero-initialised elements
                     self.tables[g['n']] = tb
@@ -252,8 +264,9 @@ class Explorer(object):
         t2 = self.u.ty(e.get('ty')) if e.get('ty') is not None else None
         return (t is not None and t['c'] in ('ptr', 'array')) or (t2 is not None and t2['c'] == 'ptr')
 
-    def table_pos(self, x, st):
-        """(table, index) when the lvalue x designates an element of a constant table by name: T[i]"""
+    def table_pos(self, x, st, subst=None, loadpos=None):
+        """(table, index) when the lvalue x designates an element of a constant table by name: T[i]  (the index may be a byte of
+        the input: T[*input_pointer], evaluated under the byte values fixed in subst)"""
         acc = access(x)
         if acc is None:
             return None
@@ -261,7 +274,7 @@ class Explorer(object):
         if b.get('k') == 'ref' and b.get('n') in self.tables and b.get('dk') in ('global', 'slocal'):
             idx = acc[1]
             if not isinstance(idx, int):
-                idx = self.ev(idx, st, {})
+                idx = self.ev(idx, st, subst or {}, loadpos)
             if idx is None:
                 return None
             return (b['n'], idx)
@@ -459,8 +472,18 @@ class Explorer(object):
             if i_ is None or j_ is None or not (0 <= i_ < len(rows)) or not (0 <= j_ < len(rows[i_])):
                 return None
             return self.finish(e0, e, rows[i_][j_])
-        if k in ('idx', 'un') and access(e) is not None and self.table_pos(e, st) is not None:
-            tn, ti = self.table_pos(e, st)
+        if k == 'mem' and not e.get('arrow') and strip_casts(e['b']).get('k') == 'idx' and \
+                strip_casts(strip_casts(e['b'])['b']).get('n') in self.table_fields and \
+                strip_casts(strip_casts(e['b'])['b']).get('dk') in ('global', 'slocal'):
+            tn_ = strip_casts(strip_casts(e['b'])['b'])['n']
+            rows = self.tables2[tn_]
+            i_ = self.ev(strip_casts(e['b'])['i'], st, subst, loadpos)
+            j_ = self.table_fields[tn_].get(e['f'])
+            if i_ is None or j_ is None or not (0 <= i_ < len(rows)) or not (0 <= j_ < len(rows[i_])):
+                return None
+            return self.finish(e0, e, rows[i_][j_])
+        if k in ('idx', 'un') and access(e) is not None and self.table_pos(e, st, subst, loadpos) is not None:
+            tn, ti = self.table_pos(e, st, subst, loadpos)
             tb = self.tables[tn]
             if not (0 <= ti < len(tb)):
                 return None
